@@ -21,9 +21,11 @@
 package jsonrpc2
 
 import (
+	"bytes"
 	"encoding/json"
 	"errors"
 	"fmt"
+	"io"
 )
 
 // ID is a Request identifier.
@@ -143,8 +145,15 @@ func EncodeMessage(msg Message) ([]byte, error) {
 
 func DecodeMessage(data []byte) (Message, error) {
 	msg := wireCombined{}
-	if err := json.Unmarshal(data, &msg); err != nil {
+	// decode numbers as json.Number: an id that goes through float64 loses
+	// precision beyond 2^53
+	dec := json.NewDecoder(bytes.NewReader(data))
+	dec.UseNumber()
+	if err := dec.Decode(&msg); err != nil {
 		return nil, fmt.Errorf("unmarshaling jsonrpc message: %w", err)
+	}
+	if _, err := dec.Token(); err != io.EOF {
+		return nil, fmt.Errorf("unmarshaling jsonrpc message: invalid data after top-level value")
 	}
 	if msg.VersionTag != wireVersion {
 		return nil, fmt.Errorf("invalid message version tag %s expected %s", msg.VersionTag, wireVersion)
@@ -152,6 +161,17 @@ func DecodeMessage(data []byte) (Message, error) {
 	id := ID{}
 	switch v := msg.ID.(type) {
 	case nil:
+	case json.Number:
+		if i, err := v.Int64(); err == nil {
+			id = Int64ID(i)
+			break
+		}
+		// coerce the id type to int64 if it is not an integer literal, the spec does not allow fractional parts
+		f, err := v.Float64()
+		if err != nil {
+			return nil, fmt.Errorf("invalid message id %v", v)
+		}
+		id = Int64ID(int64(f))
 	case float64:
 		// coerce the id type to int64 if it is float64, the spec does not allow fractional parts
 		id = Int64ID(int64(v))
